@@ -1,6 +1,7 @@
 package h
 
 import (
+	"verif/sim/simfs"
 	"encoding/json"
 	"fmt"
 	"os"
@@ -59,6 +60,7 @@ func TestTraceReplay(t *testing.T) {
 		t.Skip()
 	}
 	p := registry[os.Getenv("VERIF_PROP")]
+	simfs.TraceCalls = os.Getenv("VERIF_TRACE_FS") != ""
 	b, err := os.ReadFile(f)
 	if err != nil {
 		t.Fatal(err)
